@@ -16,7 +16,7 @@ func drive(o Obj, buf []byte, start int, cuts []int) (n int, e sipsp.ErrorHdr, c
 	e = sipsp.ErrHdrMoreBytes
 	for _, c := range cuts {
 		var p string
-		n, e, p, _ = safeCall(o, buf[:c], offs)
+		n, e, p, _ = safeCall(o, isoCopy(buf[:c]), offs)
 		cut = c
 		if p != "" {
 			return n, e, c, p
